@@ -4,7 +4,7 @@
 cd /verif
 OUT=benign/RESULTS.md
 TMP=/var/tmp/benign-all.log
-tools/run_benign.sh benign/*.diff > $TMP 2>&1
+tools/run_benign.sh /verif/benign/*.diff > $TMP 2>&1
 python3 - "$TMP" "$OUT" <<'PY'
 import sys, collections, re
 runs = collections.OrderedDict()
